@@ -28,6 +28,8 @@ pub struct Sys {
     pub router_csr: BgpsecCsr,
     pub full_obs: bool,
     pub rp_on: bool,
+    /// a task claimed by hand (`claim` op) and not yet finished
+    pub claimed: std::sync::Mutex<Option<Box<Ident>>>,
     pub t0: i64,
     _rt: tokio::runtime::Runtime,
     #[allow(dead_code)]
@@ -150,6 +152,7 @@ impl Sys {
             krill, actor, canon: Canon::default(), seen_cmds: HashMap::new(), router_csr,
             full_obs: cfg.get("obs").map(|s| s != "min").unwrap_or(true),
             rp_on: cfg.get("rp").map(|s| s != "0").unwrap_or(true),
+            claimed: std::sync::Mutex::new(None),
             t0: unix_now(),
             _rt: rt, scratch,
         }
@@ -309,6 +312,36 @@ impl Sys {
                 Ok("ok".into())
             }
             ["pump0"] => Ok("ok".into()),
+            // Play the scheduler by hand: run everything due, schedule the named task, claim it
+            // (it is now in the running state) – the task's work itself is done by later ops.
+            ["claim", name] => {
+                self.drain();
+                let task = match *name {
+                    "rrdp" => Task::RrdpUpdateIfNeeded,
+                    "republish" => Task::RepublishIfNeeded,
+                    "renew" => Task::RenewObjectsIfNeeded,
+                    _ => panic!("claim {name}"),
+                };
+                krill.tasks().schedule(task, krill::server::mq::now())?;
+                match krill.tasks().pop() {
+                    Some((key, _)) => {
+                        let k = key.to_string();
+                        *self.claimed.lock().unwrap() = Some(key);
+                        Ok(format!("ok:{}", k.split_once('-').map(|x| x.1).unwrap_or("?")))
+                    }
+                    None => Ok("ok:none".into()),
+                }
+            }
+            // … and finish the claimed task (TaskResult::Done); reports whether a task of that
+            // name is pending afterwards.
+            ["finishclaimed"] => {
+                let key = self.claimed.lock().unwrap().take();
+                let Some(key) = key else { return Ok("ok:nothing-claimed".into()) };
+                let name = key.as_str().split_once('-').map(|x| x.1.to_string()).unwrap_or_default();
+                krill.tasks().finish(&key)?;
+                let pending = self.kv_all("tasks").keys().any(|k| k.starts_with("pending/") && k.ends_with(&format!("-{name}")));
+                Ok(format!("ok:{}", if pending { "pending" } else { "not-pending" }))
+            }
             // drain, then make every pending task due once (tasks re-queued "later" after a
             // failure, start-up refreshes) and drain again: "background work has caught up"
             ["pumpall"] => {
